@@ -234,7 +234,7 @@ func (optEngine) Run(ctx *fw.Ctx, cs any) {
 	c := cs.(*optCase)
 	reqs := genOptReqs(c)
 	mkJob := func(withPlugin bool) *ChainJob {
-		j := &ChainJob{HasV4: !c.V6, HasV6: c.V6}
+		j := &ChainJob{HasV4: !c.V6, HasV6: c.V6, LogLevel: caseLogLevel(c.Seed)}
 		var chain []PlugConf
 		if c.YiAssigned {
 			chain = append(chain, PlugConf{"syn", []string{"setyi", "7"}})
